@@ -1,8 +1,9 @@
 #!/bin/bash
+ROOT=$(cd "$(dirname "$0")/.." && pwd)
 # run_seeded.sh [tier] [jobs]  run every stored seeded change against the check of its property (scratch worktrees),
 # record the outcome in seeded/<id>/meta.json and seeded/RESULTS.md.  Never touches /repo's working tree.
 tier=${1:-quick}; jobs=${2:-4}
-cd /verif
+cd "$ROOT"
 ls -d seeded/*/ | sed 's#/$##' | xargs -P "$jobs" -I{} bash -c '
   d={}; id=$(basename $d); prop=$(python3 -c "import json;print(json.load(open(\"$d/meta.json\"))[\"property\"])")
   cp $d/patch.diff /tmp/seedrun-$id.patch
@@ -18,12 +19,13 @@ json.dump(m,open(d+"/meta.json","w"),indent=1)
 print(res)
 PY
 '
-python3 - <<'PY'
-import json,glob
+ROOT="$ROOT" python3 - <<'PY'
+import json,glob,os
+ROOT=os.environ['ROOT']
 rows=[]
-for f in sorted(glob.glob('/verif/seeded/*/meta.json')):
+for f in sorted(glob.glob(ROOT+'/seeded/*/meta.json')):
     m=json.load(open(f)); r=m.get('check_result',{})
     rows.append("| %s | %s | %s | %s | %s |"%(m['id'],m['property'],(m.get('title') or '')[:90].replace('|','/'),'DETECTED' if r.get('detected') else 'missed (rc=%s)'%r.get('exit_code'),r.get('violation_class') or ''))
-open('/verif/seeded/RESULTS.md','w').write("# Seeded changes vs checks (written by tools/run_seeded.sh)\n\n| id | property | change | result | violation class |\n|---|---|---|---|---|\n"+"\n".join(rows)+"\n")
-print(open('/verif/seeded/RESULTS.md').read())
+open(ROOT+'/seeded/RESULTS.md','w').write("# Seeded changes vs checks (written by tools/run_seeded.sh)\n\n| id | property | change | result | violation class |\n|---|---|---|---|---|\n"+"\n".join(rows)+"\n")
+print(open(ROOT+'/seeded/RESULTS.md').read())
 PY
